@@ -65,6 +65,23 @@ def satStream (size : Nat) (g : PDeframer) (data : List Byte) : List CallObs →
       let (r, t') := specNext size g t
       resOfSpec r == c.res && partitionOk t' && satStream size g data rest t'
 
+
+/-- C06's clauses that hold for ANY deframer (also rejecting ones), on the implementation's observations: a call
+    that ends in an error, a panic or `None` consumes and loses nothing (unread ++ undelivered is unchanged), a
+    frame only removes a prefix, and `InvalidData` (deframer rejection / buffer full) repeats on retry -/
+def satOwn (data : List Byte) : List CallObs → List Byte → Bool
+  | [], _ => true
+  | c :: rest, t =>
+    let t' := c.rd ++ data.drop c.pos
+    let isFrame := c.res.startsWith "frame"
+    let keep := if isFrame then t'.isSuffixOf t else t' == t
+    let rep := if c.res == "err0" then
+        match rest.find? (fun n => !isReaderFault n.res) with
+        | some n => n.res == "err0"
+        | none => true
+      else true
+    keep && rep && satOwn data rest t'
+
 /-- C12 on the implementation's log: in each read_frame call, every reader call happens only while the buffered
     bytes hold no complete frame, with a non-empty destination no larger than the free space; nothing is read after
     a result is available -/
@@ -80,7 +97,10 @@ def satCalls (size : Nat) (f : Deframer) (data : List Byte) : List String → Li
           let verdict := if cur.isEmpty then (Except.ok none : Except Unit _) else f cur
           let needed := match verdict with | .ok none => true | _ => false
           let n := if r.startsWith "ok" then (r.drop 2).toString.toNat?.getD 0 else 0
-          needed && decide (0 < d) && decide (d + cur.length ≤ size) && decide (n ≤ d) &&
+          -- an empty read, an error (other than Interrupted, which may be retried) or a panic is a result:
+          -- no further call in this segment (`Disciplined` in FBV/Spec/CallTrace.lean, `C12.call_discipline`)
+          let stop := r == "ok0" || (r.startsWith "err" && r != "err2") || r == "panic" || r == "pending"
+          needed && decide (0 < d) && decide (d + cur.length ≤ size) && decide (n ≤ d) && (!stop || rest.isEmpty) &&
             satCalls size f data rest (cur ++ (data.drop pos).take n) (pos + n)
       | _ => false
 
@@ -129,13 +149,20 @@ def check (oc : Bool) (pre impl : List String) : Option (List String × Bool) :=
     | none => none
   let segCounts (l : List String) := (segments l).map List.length
   let contractDf := (pdf? df).isSome
-  if proj mcalls != proj icallsS || faultKinds mcalls != faultKinds icallsS then
+  -- the scripted reader is positional (one action per call): when the implementation's reader-call sequence is not
+  -- the model's (a needless or missing call is C12's business and reported as UNSAT C12 below; a different but
+  -- permitted destination length is nobody's) every later action lands on a different call than in the model, so
+  -- the C02 / C06 projections are not comparable with the model's; the properties' own predicates (`satStream`,
+  -- `satOwn`, fault kinds) are evaluated on the implementation's observations in every case
+  let rd0 := b0.readable
+  let c12ok := satC12 n f s.data rd0 icalls ilog
+  if mlog == ilog && (proj mcalls != proj icallsS || faultKinds mcalls != faultKinds icallsS) then
     v := (if faults || !contractDf then "DIFF C06" else "DIFF C02") :: v
+  if !satOwn s.data icalls (rd0 ++ s.data) then v := "UNSAT C06" :: v
   -- C12's observables are the truth values of its clauses on the log (raw destination lengths and call
   -- counts are compared as drift only): the model satisfies them by theorem, so a disagreement is exactly
   -- a failure of the predicate on the implementation's own log, reported as UNSAT below
   let _ := segCounts
-  let rd0 := b0.readable
   match pdf? df with
   | some g =>
     if !satStream n g s.data icalls (rd0 ++ s.data) then v := (if faults then "UNSAT C06" else "UNSAT C02") :: v
@@ -146,7 +173,7 @@ def check (oc : Bool) (pre impl : List String) : Option (List String × Bool) :=
   | none =>
     -- rejecting deframers: own errors repeat and leave the unread bytes intact (compared against the model only)
     pure ()
-  if !satC12 n f s.data rd0 icalls ilog then v := "UNSAT C12" :: v
+  if !c12ok then v := "UNSAT C12" :: v
   if !faults && icallsS.any (fun c => c.startsWith "panic") then v := "UNSAT C04" :: v
   if allocs != 0 then v := "UNSAT C18" :: v
   return (v, icalls.length > 2)
